@@ -20,6 +20,7 @@ import (
 	"context"
 	mrand "math/rand"
 	"net"
+	"net/netip"
 	"strings"
 
 	"github.com/enfein/mieru/v3/apis/constant"
@@ -118,6 +119,19 @@ func (s *Server) rejectPrivateAndLoopbackIPAction(_ context.Context, in egress.I
 		domainName := req.DstAddr.FQDN
 		// Host names are case insensitive.
 		domainName = strings.ToLower(domainName)
+		// A trailing dot doesn't change the host that the name refers to.
+		domainName = strings.TrimSuffix(domainName, ".")
+		// An IP address written as text in the domain name field is dialed
+		// as that IP address, so it must pass the same checks.
+		var literalIP net.IP
+		if literal, err := netip.ParseAddr(domainName); err == nil {
+			literalIP = net.IP(literal.AsSlice())
+			if literalIP.IsUnspecified() && literalIP.To4() != nil {
+				literalIP = net.ParseIP("127.0.0.1")
+			} else if literalIP.IsUnspecified() {
+				literalIP = net.ParseIP("::1")
+			}
+		}
 		isWellKnownIPv4LocalDomainName := false
 		isWellKnownIPv6LocalDomainName := false
 		for _, d := range wellKnownIPv4LocalDomainNames {
@@ -136,6 +150,8 @@ func (s *Server) rejectPrivateAndLoopbackIPAction(_ context.Context, in egress.I
 			ip = net.ParseIP("127.0.0.1")
 		} else if isWellKnownIPv6LocalDomainName {
 			ip = net.ParseIP("::1")
+		} else if literalIP != nil {
+			ip = literalIP
 		} else {
 			return egress.Action{
 				Action: appctlpb.EgressAction_DIRECT,
